@@ -109,7 +109,10 @@ func genC10(rng *rand.Rand, c *Case) {
 	c.Cfg["mode"] = rng.Intn(3) // 0 download, 1 upload, 2 upload then download (round trip)
 	c.Cfg["twin"] = rng.Intn(2)  // download mode: a second client downloads another folder at the same time
 	c.Cfg["choiceseed"] = rng.Intn(1 << 30)
-	c.Cfg["cut"] = []int{0, 0, 0, 1, 2, 3, 4}[rng.Intn(7)] // 1/2 reset/close inside a resumed item, 3/4 close/reset inside a new item
+	// 1/2 reset/close inside a resumed item, 3/4 close/reset inside a new item; 5/6: the client vanishes inside a
+	// resumed / new item without a FIN or RST reaching the server, retries on a new connection, and the server learns
+	// of the death of the old connection only after the retry is complete
+	c.Cfg["cut"] = []int{0, 0, 0, 1, 2, 3, 4, 5, 6, 5}[rng.Intn(10)]
 }
 
 // folderItemHeader encodes one folder-upload item header.
@@ -279,7 +282,12 @@ func (c *Client) folderUpload(w *World, folder string, nodes []treeNode, cut int
 	}
 	ref, _ := rep.Get(rp.FRefNum)
 	x := c.DialXfer()
-	defer x.Close()
+	abandoned := false
+	defer func() {
+		if !abandoned {
+			x.Close()
+		}
+	}()
 	_, _ = x.Write(rp.XferPreamble(ref, uint32(total)))
 	if a, err := readN(x, 2); err != nil || a[1] != 3 {
 		w.Violate("c10-upload-no-start", "server did not start the folder upload with a next-item action: %v %v", a, err)
@@ -328,6 +336,14 @@ func (c *Client) folderUpload(w *World, folder string, nodes []treeNode, cut int
 			ffo := rp.EncodeFFO(rp.InfoFork{Platform: "AMAC", Type: "TEXT", Creator: "ttxt", Name: []byte(filepath.Base(nd.Rel))}, nd.Data[off:], nil, false)
 			sz := make([]byte, 4)
 			binary.BigEndian.PutUint32(sz, uint32(len(ffo)))
+			if cut == 5 {
+				_, _ = x.Write(append(sz, ffo[:len(ffo)-len(nd.Data[off:])/2-1]...))
+				c.waitDrained(x)
+				abandoned = true
+				c.Abandoned = append(c.Abandoned, x)
+				w.Probe("fault_client_vanishes_in_resumed_folder_item")
+				return false
+			}
 			if cut == 1 || cut == 2 {
 				// the connection dies in the middle of the resumed file: by a reset, or by the client closing it
 				part := append(sz, ffo[:len(ffo)-len(nd.Data[off:])/2-1]...)
@@ -364,6 +380,14 @@ func (c *Client) folderUpload(w *World, folder string, nodes []treeNode, cut int
 			ffo := rp.EncodeFFO(rp.InfoFork{Platform: "AMAC", Type: "TEXT", Creator: "ttxt", Name: []byte(filepath.Base(nd.Rel))}, nd.Data, nil, false)
 			sz := make([]byte, 4)
 			binary.BigEndian.PutUint32(sz, uint32(len(ffo)))
+			if cut == 6 && len(nd.Data) >= 2 {
+				_, _ = x.Write(append(sz, ffo[:len(ffo)-len(nd.Data)/2-1]...))
+				c.waitDrained(x)
+				abandoned = true
+				c.Abandoned = append(c.Abandoned, x)
+				w.Probe("fault_client_vanishes_in_new_folder_item")
+				return false
+			}
 			if (cut == 3 || cut == 4) && len(nd.Data) >= 2 {
 				// the connection dies in the middle of a new file
 				_, _ = x.Write(append(sz, ffo[:len(ffo)-len(nd.Data)/2-1]...))
@@ -472,7 +496,23 @@ func runC10(w *World) {
 				cut = cfg["cut"]
 			}
 			if !c.folderUpload(w, "Folder", nodes, cut) {
-				return
+				if cut == 0 || len(w.Violations()) > 0 {
+					return
+				}
+				// the upload was cut: the client tries again, and this time nothing interferes
+				SettleShort()
+				w.Probe("folder_upload_retried_after_cut")
+				if !c.folderUpload(w, "Folder", nodes, 0) {
+					if len(w.Violations()) == 0 {
+						w.Violate("c10-retry-after-cut-fails", "a folder upload cut in mode %d could not be completed by a second attempt", cut)
+					}
+					return
+				}
+				compareTree(w, filepath.Join(w.FileRoot, "Folder"), nodes, "c10-uploaded-tree-differs-at-last-acknowledgement")
+				for _, x := range c.Abandoned {
+					x.Reset() // only now does the server learn that the first connection is dead
+					w.Probe("fault_late_death_of_abandoned_connection")
+				}
 			}
 			if cut == 0 {
 				// every item has been acknowledged: a client that goes on at once (lists, downloads) must find the tree
